@@ -27,8 +27,9 @@ def known_matcher(pid):
             return None                       # the real renderer no longer behaves as the pinned algorithm: nothing is excused
         pages = ev['pages']
         last_ok = max([i for i, p in enumerate(pages) if p['kind'] == 'ok'] or [-1])
-        mid_fail = any(p['kind'] == 'err' and 'limit exceeded' in p['why'] for p in pages[:last_ok + 1]) or \
-            any(p['kind'] == 'ok' and p['next'] and i + 1 < len(pages) and pages[i + 1]['kind'] == 'err' and 'limit exceeded' in pages[i + 1]['why'] for i, p in enumerate(pages))
+        first_ok = min([i for i, p in enumerate(pages) if p['kind'] == 'ok'] or [len(pages)])
+        # a page that the grouping produced but that fails the final size check (its rows are never shown)
+        mid_fail = any(p['kind'] == 'err' and 'limit exceeded' in p['why'] for p in pages[first_ok + 1:])
         if inv in ('C02_OfferedRenders', 'C02_Partition', 'C02_NavOffered') and mid_fail and 'render-next-into-oversize-page' in ks:
             return ks['render-next-into-oversize-page']
         if inv == 'C02_Partition' and 'render-empty-row-dropped' in ks and '' in ev['rows']:
